@@ -38,6 +38,11 @@ def explore(ctx, d, gates, depth, dynemodes, detnames):
     extra += "DCDef == << %s >>\n" % ", ".join('[name |-> "%s", m |-> %s]' % (n, L.tla_qmat(DETCOVS[n][0])) for n in detnames)
     mod = GR.spec_module("MCPG", d, gates, extra).replace("EXTENDS PqGaussian", "EXTENDS PqDyne")
     res = run_tlc("MCPG", "MCPG.cfg", generated={"MCPG.tla": mod, "MCPG.cfg": CFG % (d, depth)}, timeout=3000)
+    # 32-bit integers: the Gauss-Jordan inverse of deep states can overflow (a TLC error, never silent): explore one gate less and record it
+    while "Overflow when computing" in res.out and depth > 1:
+        depth -= 1
+        ctx.notes.setdefault("dyne_overflow_reductions", []).append({"d": d, "depth_reduced_to": depth})
+        res = run_tlc("MCPG", "MCPG.cfg", generated={"MCPG.tla": mod, "MCPG.cfg": CFG % (d, depth)}, timeout=3000)
     if res.violated:
         ctx.report("spec:PqDyne:" + ",".join(map(str, res.violated)), "PqDyne violates its own theorem (oracle broken)", res.out[-2000:])
         return []
